@@ -87,7 +87,7 @@ def _apply(ds, op, model):
         mn, mx = X.min(axis=0), X.max(axis=0)
         omn, omx = np.array([p[0] for p in before]).min(axis=0), np.array([p[0] for p in before]).max(axis=0)
         for k in range(dim):
-            if omx[k] - omn[k] > 1e-12 and (abs(mn[k] - r[0]) > 1e-9 or abs(mx[k] - r[1]) > 1e-9):
+            if omx[k] - omn[k] > 1e-12 and (not (abs(mn[k] - r[0]) <= 1e-9) or not (abs(mx[k] - r[1]) <= 1e-9)):
                 issues.append(("scale_range_ends", "dimension %d: min %r max %r, range %r" % (k, mn[k], mx[k], r)))
         if sorted(l for _, l in _ms(ds)) != sorted(l for _, l in before):
             issues.append(("labels_changed", "labels after scale_range %r" % (r,)))
@@ -123,7 +123,7 @@ def _apply(ds, op, model):
             ds.shift_value(svec)
             want = [tuple(v + s for v, s in zip(x, svec)) for x in order_before]
         got = [tuple(np.atleast_1d(x)) for x in ds.get_data()[0]]
-        if len(got) != len(want) or any(abs(g - w) > 1e-9 for a, b in zip(got, want) for g, w in zip(a, b)):
+        if len(got) != len(want) or any(not (abs(g - w) <= 1e-9) for a, b in zip(got, want) for g, w in zip(a, b)):
             issues.append(("affine_map", "%s: samples %r expected %r" % (op, got, want)))
         if sorted(l for _, l in _ms(ds)) != sorted(l for _, l in before):
             issues.append(("labels_changed", op))
@@ -136,7 +136,7 @@ def _apply(ds, op, model):
         if model.get("valid"):
             o = model["orig"]
             got = _ms(ds)
-            if len(got) != len(o) or any(a[1] != b[1] or any(abs(x - y) > 1e-8 * max(1.0, abs(y)) for x, y in zip(a[0], b[0])) for a, b in zip(got, o)):
+            if len(got) != len(o) or any(a[1] != b[1] or any(not (abs(x - y) <= 1e-8 * max(1.0, abs(y))) for x, y in zip(a[0], b[0])) for a, b in zip(got, o)):
                 issues.append(("revert_restores_original", "after revert %r, before the first scaling %r" % (got, o)))
         model["valid"] = False
     elif op in ("shuffle_rev", "shuffle_rot"):
